@@ -82,6 +82,25 @@ var apiFuncs = map[string]apiFn{
 		}
 		return fmt.Sprint(ok, err, w, ok2, err2, w2)
 	},
+	"URICmpPair": func(in []byte, ex map[string]any) string {
+		// two URIs of different lengths, each in its own exact-capacity buffer, through every comparison entry point
+		b1 := append(make([]byte, 0, len(in)), in...)
+		o := ex["other"].(string)
+		b2 := append(make([]byte, 0, len(o)), o...)
+		fl := sipsp.URICmpFlags(exInt(ex, "flags"))
+		var u1, u2 sipsp.PsipURI
+		e1, _ := sipsp.ParseURI(b1, &u1)
+		e2, _ := sipsp.ParseURI(b2, &u2)
+		out := ""
+		if e1 == 0 && e2 == 0 {
+			out = fmt.Sprint(sipsp.URICmpShort(&u1, b1, &u2, b2, fl), sipsp.URICmp(&u1, b1, &u2, b2, fl),
+				sipsp.URICmpShort(&u2, b2, &u1, b1, fl), sipsp.URICmp(&u2, b2, &u1, b1, fl))
+		}
+		ok, err, w := sipsp.URIRawCmp(b1, b2, fl)
+		var r1, r2 sipsp.PsipURI
+		ok2, err2, w2 := sipsp.URIParseCmp(b2, b1, fl, &r1, &r2)
+		return out + fmt.Sprint(ok, err, w, ok2, err2, w2)
+	},
 	"URIParamsEq": func(in []byte, ex map[string]any) string {
 		other := []byte(ex["other"].(string))
 		ok, err := sipsp.URIParamsEq(in, 0, other, 0)
@@ -215,6 +234,19 @@ func c04NonParsing(r *Run) {
 			}
 		})
 	}
+	// pairs of well-formed URIs whose components differ in length (a field of one URI lies beyond the end of the other
+	// URI's buffer), under every combination of skip flags
+	cu := c04CmpURIs()
+	parallelFor(r, len(cu), func(c *enumCtx, i int) {
+		for j := range cu {
+			for fl := 0; fl < 64; fl++ {
+				if fl != 0 && fl != 63 && fl&(fl-1) != 0 && (i+j+fl)%8 != 0 {
+					continue // every single flag, none, all; other combinations on 1/8 of the pairs
+				}
+				apiCheck(r, c, "URICmpPair", []byte(cu[i]), map[string]any{"other": cu[j], "flags": fl})
+			}
+		}
+	})
 	// parameter / header list comparisons
 	psig := append([]byte("a=;&\" \r\n?,"), 0x00, 0xff)
 	enumStrings(r, psig, 0, r.pick(4, 5), nil, func(c *enumCtx, s []byte) {
@@ -229,6 +261,24 @@ func c04NonParsing(r *Run) {
 	enumStrings(r, []byte("1f:.[]x"), 0, r.pick(7, 9), nil, func(c *enumCtx, s []byte) { apiCheck(r, c, "IPsig", s, nil) })
 	enumStrings(r, []byte("1:"), 10, r.pick(21, 23), nil, func(c *enumCtx, s []byte) { apiCheck(r, c, "IPsig", s, nil) })
 	enumStrings(r, append([]byte("25.;=z-"), 0x00, 0xff), 0, r.pick(5, 6), nil, func(c *enumCtx, s []byte) { apiCheck(r, c, "IPsig", s, nil) })
+}
+
+func c04CmpURIs() []string {
+	var out []string
+	for _, sch := range []string{"sip:", "tel:"} {
+		for _, up := range []string{"", "u@", "bob@", "bob:pw@", "bob:averylongpassword1234567890@", "u:@", ":p@"} {
+			for _, h := range []string{"h", "[::1]", "some.long.host.example.org"} {
+				for _, po := range []string{"", ":65535"} {
+					for _, pa := range []string{"", ";p", ";transport=udp;lr;maddr=1.2.3.4"} {
+						for _, hd := range []string{"", "?a=1", "?a=1&bb=22&subject=longer%20value"} {
+							out = append(out, sch+up+h+po+pa+hd)
+						}
+					}
+				}
+			}
+		}
+	}
+	return out
 }
 
 // ---- isolation: all interleavings of independent sessions at API-call granularity -------------
